@@ -8,8 +8,10 @@ from .payload import Interner, version_clear
 TEXTS = ["", "0", "1", "43", "57", "100", "101", "-1", "3.5", "abc", "\xfcn\xef", "\U0001f600", "a b", " lead",
          "x" * 50, "M", "I", "Off", "HeatOn", "Auto", "Max", "ff0000", "ff0000ff", "55.7,13.2,12", "1e1",
          "٥٠", "+5", "1_0", "0.5", "-0.5", "99.9", "12345678901234567890", "CoolOn", "Normal", "zz",
-         "light", "{\"k\": 1}", "\\", "'q'", "tab\there", "é́", "254", "255", "7",
-         "caf\udce9"]      # (a lone surrogate: what surrogateescape decoding of a stray byte leaves in a str)
+         "light", "{\"k\": 1}", "\\", "'q'", "tab\there", "é́", "254", "255", "7"]
+# a lone surrogate (what surrogateescape decoding of a stray byte leaves in a str) is not well-formed Unicode: it cannot be
+# sent over any transport (UTF-8), so only the persistence round trip (C11, recording transport) is asked to carry it
+LONE_SURROGATE = "caf\udce9"
 VERSIONS_TXT = ["1.4", "1.5", "2.0", "2.1", "2.2", "2.2.0", "2.0.0", "2.1.1", "1.3", "0.9", "abc", "", "2.3",
                 "1.10", "1.4.1", "3.0", "1.5.0", "nope"]
 SUGGEST = {2: ["0", "1"], 15: ["0", "1"], 16: ["0", "1"], 36: ["0", "1"], 3: ["0", "50", "100"],
@@ -55,6 +57,8 @@ class Gen:
         return self.rng.choice(self.types) if self.rng.random() < 0.9 else self.rng.randint(0, 58)
 
     def val(self, t):
+        if getattr(self, "extra_text", None) and self.rng.random() < 0.04:
+            return self.extra_text
         if t in SUGGEST and self.rng.random() < 0.8:
             return self.rng.choice(SUGGEST[t])
         return self.rng.choice(TEXTS)
@@ -155,7 +159,7 @@ def _prefix(drv, gen, rng, kind, flavour, hexfile):
 
 def run_history(rng, version, flavour, steps, *, profile=None, calls=True, persist=None, raising_cb=False,
                 pump_bias=0.7, hexfile=None, clock=True, mqtt=False, harsh=False, prefix=None,
-                tick_p=0.06, restart_p=0.03, snap_dir=None, snap_p=0.0, no_callback=False, real_link=None):
+                tick_p=0.06, restart_p=0.03, snap_dir=None, snap_p=0.0, no_callback=False, real_link=None, surrogate=False):
     """One random history on a fresh gateway; returns the trace dict."""
     interner = Interner()
     if real_link is None:
@@ -163,6 +167,7 @@ def run_history(rng, version, flavour, steps, *, profile=None, calls=True, persi
     drv = Driver(version, flavour, interner, persistence_file=persist, raising_cb=raising_cb, mqtt=mqtt, no_callback=no_callback,
                  spelling=rng.choice(SPELLINGS[version]), real_link=real_link)
     gen = Gen(rng, version, profile)
+    gen.extra_text = LONE_SURROGATE if surrogate else None
     gen.ota_nodes = []
     gen.pending = []
 
